@@ -14,7 +14,7 @@ SPEC = dict(
     level="exploration",
     rule=("cases = generated projects whose surrounding text is arbitrary Unicode (all planes, BOM, C0/C1 controls, "
           "U+2028/2029/0085, regex metacharacters) x {LF, CRLF, CR, mixed} x with/without final newline, plus "
-          "unconfigured files (incl. invalid UTF-8 bytes) that must never be written; a share is replayed in a "
+          "unconfigured files (incl. invalid UTF-8 bytes) that must never be written; fixed families: overlapping matches on one line; a glob entry over three files plus an entry giving one of them an extra pattern (v2 + legacy, TOML + setup.cfg); a share is replayed in a "
           "subprocess with LC_ALL=C PYTHONUTF8=0 PYTHONCOERCECLOCALE=0; non-trivial+distinct = distinct (EOL "
           "regimes present, final-newline variants, BOM?, non-ASCII?, control chars?, pattern kinds, locale) tuples"),
     assumptions=["filler contains no digits/upper-case letters (they could extend a version or form a part name); "
